@@ -494,9 +494,9 @@ def e_eq_mixed_mk(T):
         float or ndarray: Equilibrium pressure [Pa].
     """
     # Keep track of input type to match the return type.
-    is_float_input = isinstance(T, Number)
+    is_float_input = isinstance(T, Number) or np.ndim(T) == 0
     if is_float_input:
-        # Convert float input to ndarray to allow indexing.
+        # Convert float (or 0-d array) input to ndarray to allow indexing.
         T = np.asarray([T])
 
     e_eq_water = e_eq_water_mk(T)
